@@ -419,3 +419,67 @@ Fixpoint unpack_word (n : nat) (w : Z) : bytes :=
   end.
 Definition unpack (len : Z) (ws : list Z) : bytes :=
   firstn (Z.to_nat len) (flat_map (unpack_word 6) ws).
+
+(* ------------------------------------------------------------------ power loss
+   A second, stronger crash model.  File CONTENT is durable only once an fsync on that
+   file has succeeded; directory operations (create, rename, unlink, truncation) are
+   durable at once (metadata journalling).  After a power loss a name shows the durable
+   content of its inode: data that was written but never fsynced is gone.
+   `durable` maps an inode to the content a power loss would leave. *)
+Record dstate := mkDS { ks : kstate; durable : Z -> bytes }.
+
+Definition dstep (s : dstate) (o : kop) : dstate :=
+  mkDS (kstep (ks s) o)
+       (match o with
+        | KFsync f =>
+            match fds (ks s) f with
+            | Some (i, _) => upd_z (durable s) i (data (ks s) i)
+            | None => durable s
+            end
+        | KOpen f p creat excl trunc =>
+            match names (ks s) p with
+            | Some i => if creat && excl then durable s
+                        else if trunc then upd_z (durable s) i [] else durable s
+            | None => if creat then upd_z (durable s) (next (ks s)) [] else durable s
+            end
+        | KTruncate f len =>
+            match fds (ks s) f with
+            | Some (i, _) => upd_z (durable s) i (truncate_to (Z.to_nat len) (durable s i))
+            | None => durable s
+            end
+        | _ => durable s
+        end).
+
+Definition drun (ops : list kop) (s : dstate) : dstate := fold_left dstep ops s.
+
+(* what a reader finds under a name after a power loss *)
+Definition pl_read (s : dstate) (p : path) : option bytes :=
+  match names (ks s) p with Some i => Some (durable s i) | None => None end.
+
+(* every file that exists at the start is durable *)
+Definition dinit (target : path) (old : option bytes) : dstate :=
+  mkDS (init target old) (data (init target old)).
+Definition dinit_files (l : list (path * bytes)) : dstate :=
+  mkDS (init_files l) (data (init_files l)).
+
+Definition pl_ok_b (s : dstate) (target : path) (old : option bytes) (new : bytes) : bool :=
+  obytes_eqb (pl_read s target) old || obytes_eqb (pl_read s target) (Some new).
+
+Fixpoint pl_first_bad_from (s : dstate) (ops : list kop) target old new (k : Z) : option Z :=
+  if pl_ok_b s target old new then
+    match ops with
+    | [] => None
+    | o :: t => pl_first_bad_from (dstep s o) t target old new (k + 1)
+    end
+  else Some k.
+
+(* None: a power loss after any number of completed calls leaves the old or the new state *)
+Definition powerloss_first_bad (ops : list kop) target old new : option Z :=
+  pl_first_bad_from (dinit target old) ops target old new 0.
+Definition powerloss_atomic_b (ops : list kop) target old new : bool :=
+  match powerloss_first_bad ops target old new with None => true | Some _ => false end.
+
+Definition powerloss_atomic (s0 : dstate) (ops : list kop) target old new : Prop :=
+  forall k : nat,
+    pl_read (drun (firstn k ops) s0) target = old \/
+    pl_read (drun (firstn k ops) s0) target = Some new.
